@@ -1,6 +1,7 @@
 import HranoModel.Lemmas.Walk
 import HranoModel.Lemmas.Next
 import HranoModel.Lemmas.DateOrder
+import HranoModel.Lemmas.DateInv
 import HranoModel.Lemmas.DateRT
 import HranoModel.Model.Options
 /-!
@@ -102,6 +103,39 @@ theorem summary_date_selects_day (d y : Int) :
   simp only [Date.nsPerDay]
   simp [inInterval]
   omega
+
+/-- **the date of a day number is the date it was computed from**: the calendar conversion used for the `Today:` line of
+    `stats` and for the day `summary` reports on inverts the day count, for every accepted date -/
+theorem day_number_reads_back (c : Civil) (hc : Date.Valid c) :
+    Date.ofDays (Date.toDays c) = c ∧ Date.ofDays (Date.instant c / Date.nsPerDay) = c := by
+  refine ⟨Date.ofDays_toDays c hc, ?_⟩
+  have : Date.instant c / Date.nsPerDay = Date.toDays c := by
+    unfold Date.instant Date.nsPerDay
+    exact Int.mul_ediv_cancel _ (by decide)
+  rw [this]
+  exact Date.ofDays_toDays c hc
+
+/-- **`summary DATE` reports on exactly that calendar day**: the window the model's command loader installs for an
+    accepted date `c` starts at `c`'s instant and is one day long, so a heading `d` lies in it iff `d` is the date `c` -/
+theorem summary_date_is_that_day (l l' : Layout) (sc sd : Bytes) (c d : Civil)
+    (hc : Date.parse l sc = some c) (hd : Date.parse l' sd = some d) :
+    let w := summaryWindow (Date.ofDays (floorDiv (Date.instant c + 0) Date.nsPerDay)) 0
+    w = (Date.instant c, Date.instant c + Date.nsPerDay - 1)
+    ∧ (inInterval (some w.1) (some w.2) (Date.instant d) = true ↔ d = c) := by
+  have vc := Date.parse_valid l sc c hc
+  have vd := Date.parse_valid l' sd d hd
+  have e : Date.ofDays (floorDiv (Date.instant c + 0) Date.nsPerDay) = c := by
+    rw [Int.add_zero]; exact (day_number_reads_back c vc).2
+  simp only [e, summaryWindow, Int.sub_zero]
+  refine ⟨trivial, ?_⟩
+  rw [← Date.instant_eq_iff d c vd vc]
+  have := summary_date_selects_day (Date.toDays c) (Date.toDays d)
+  unfold Date.instant
+  rw [this]
+  unfold Date.nsPerDay
+  constructor
+  · intro h; rw [h]
+  · intro h; omega
 
 /-! non-vacuity -/
 example : inInterval (some 5) (some 5) 5 = true := by decide
